@@ -194,6 +194,43 @@ pub fn canon(s: &str) -> String {
     out
 }
 
+/// canonical texts equal up to float rounding: same skeleton, numbers within 2e-3 absolute or 1e-4 relative
+pub fn near(a: &str, b: &str) -> bool {
+    fn split(s: &str) -> (String, Vec<f64>) {
+        let (mut skel, mut nums) = (String::new(), vec![]);
+        let b: Vec<char> = s.chars().collect();
+        let mut i = 0;
+        while i < b.len() {
+            let ch = b[i];
+            let starts = ch.is_ascii_digit() || (ch == '-' && i + 1 < b.len() && b[i + 1].is_ascii_digit());
+            let prev_alnum = i > 0 && (b[i - 1].is_ascii_alphanumeric() || b[i - 1] == '#' || b[i - 1] == '_');
+            if starts && !prev_alnum {
+                let st = i;
+                i += 1;
+                while i < b.len() && (b[i].is_ascii_digit() || b[i] == '.') {
+                    i += 1;
+                }
+                let tok: String = b[st..i].iter().collect();
+                if let Ok(v) = tok.parse::<f64>() {
+                    nums.push(v);
+                    skel.push('#');
+                    continue;
+                }
+                skel += &tok;
+            } else {
+                skel.push(ch);
+                i += 1;
+            }
+        }
+        (skel, nums)
+    }
+    if a == b {
+        return true;
+    }
+    let ((sa, na), (sb, nb)) = (split(a), split(b));
+    sa == sb && na.len() == nb.len() && na.iter().zip(nb.iter()).all(|(x, y)| (x - y).abs() <= 2e-3f64.max(1e-4 * x.abs().max(y.abs())))
+}
+
 fn tree_text(svg: &str, o: &usvg::Options) -> Option<String> {
     match pan::catch(|| usvg::Tree::from_str(svg, o).map(|t| t.to_string(&usvg::WriteOptions::default()))) {
         Ok(Ok(s)) => Some(canon(&s)),
@@ -239,6 +276,7 @@ pub fn corr(tier: &str, seed: u64, c: &mut Corr) {
         let lines = usvg::verif_svgtree::trace_take();
         trace_requests(&lines, c);
     }
+    font_size_corr(tier, &mut rng, c);
     // ---- corpus files (all of structure/style, painting, text: whatever the sample picks)
     let nc = if tier == "thorough" { 0 } else { 150 };
     for p in crate::corpus::sample(nc, seed) {
@@ -247,6 +285,59 @@ pub fn corr(tier: &str, seed: u64, c: &mut Corr) {
         let _ = pan::catch(|| usvg::verif_svgtree::dump_svgtree(&text, None));
         let lines = usvg::verif_svgtree::trace_take();
         trace_requests(&lines, c);
+    }
+}
+
+const FS_UNITS: [(&str, &str); 10] = [("", "none"), ("px", "px"), ("em", "em"), ("ex", "ex"), ("in", "in"), ("cm", "cm"), ("mm", "mm"), ("pt", "pt"), ("pc", "pc"), ("%", "percent")];
+
+/// font-size chains: `resolve_font_size` against the model, bit-exact
+fn font_size_corr(tier: &str, rng: &mut Rng, c: &mut Corr) {
+    let n = if tier == "thorough" { 3000 } else { 400 };
+    for _ in 0..n {
+        let dpi = *rng.pick(&[72.0f32, 96.0, 300.0, 90.0, 1.0, 133.7]);
+        let k = 1 + rng.below(3) as usize;
+        let chain: Vec<(crate::c17::Num, usize)> = (0..k)
+            .map(|_| {
+                let u = rng.below(FS_UNITS.len() as u64) as usize;
+                // keep relative steps moderate so the size stays a sane positive number
+                let nmb = if matches!(FS_UNITS[u].0, "em" | "ex") { crate::c17::num(format!("{}", (rng.range(1, 40) as f64) / 10.0)) } else if FS_UNITS[u].0 == "%" { crate::c17::num(format!("{}", rng.range(10, 300))) } else { crate::c17::gen_len(rng, true) };
+                (nmb, u)
+            })
+            .collect();
+        let mut open = String::new();
+        let mut close = String::new();
+        for (i, (nm, u)) in chain.iter().enumerate() {
+            let attr = format!(r#" font-size="{}{}""#, nm.text, FS_UNITS[*u].0);
+            if i + 1 == chain.len() {
+                open += &format!(r#"<text x="1" y="20"{}>x</text>"#, attr);
+            } else {
+                open += &format!("<g{}>", attr);
+                close += "</g>";
+            }
+        }
+        let svg = format!(r#"<svg xmlns="http://www.w3.org/2000/svg" width="100" height="100">{}{}</svg>"#, open, close);
+        let mut o = crate::corpus::opts_for(None);
+        o.dpi = dpi;
+        let dflt = o.font_size;
+        let Ok(Ok(t)) = pan::catch(|| usvg::Tree::from_str(&svg, &o)) else { continue };
+        fn first_text(g: &usvg::Group) -> Option<&usvg::Text> {
+            for n in g.children() {
+                match n {
+                    usvg::Node::Text(t) => return Some(t),
+                    usvg::Node::Group(g) => {
+                        if let Some(t) = first_text(g) {
+                            return Some(t);
+                        }
+                    }
+                    _ => {}
+                }
+            }
+            None
+        }
+        let Some(tx) = first_text(t.root()) else { continue };
+        let Some(sp) = tx.chunks().first().and_then(|ch| ch.spans().first()) else { continue };
+        let req: Vec<String> = chain.iter().map(|(nm, u)| format!("{}:{}", FS_UNITS[*u].1, hx(nm.f32v))).collect();
+        c.emit(&format!("fontsize {} {} {}", hx(dpi), hx(dflt), req.join(" ")), &hx(sp.font_size().get()));
     }
 }
 
@@ -378,6 +469,54 @@ pub fn search(tier: &str, seed: u64, s: &mut Search) {
                     if ta != tb {
                         s.finding("oracle:spelling:inherit==parent-value", &format!("{}:inherit differs from writing the parent's value", prop), &b);
                     }
+                }
+            }
+        }
+        // explicit `inherit` when the direct parent is silent and a further ancestor sets the property
+        for (gi, _) in &gp {
+            let p = &PROPS[*gi];
+            if !p.inheritable || rp.iter().any(|(ri, _)| ri == gi) {
+                continue;
+            }
+            let deep = |rect_attrs: &str| {
+                format!(
+                    r#"<svg xmlns="http://www.w3.org/2000/svg" width="80" height="60"><g id="g"{}><g id="mid"><g id="mid2" opacity="0.5"><rect id="r" {}{}/></g></g></g></svg>"#,
+                    attrs_text(&gp), SHAPE, rect_attrs
+                )
+            };
+            let a = deep(&attrs_text(&rp));
+            let b = deep(&format!(r#"{} {}="inherit""#, attrs_text(&rp), p.name));
+            let cc = deep(&format!(r#"{} style="{}:inherit""#, attrs_text(&rp), p.name));
+            if let (Some(ta), Some(tb), Some(tc)) = (tree_text(&a, &o), tree_text(&b, &o), tree_text(&cc, &o)) {
+                s.case("inherit==far-ancestor", &b, true);
+                if ta != tb || ta != tc {
+                    s.finding("oracle:spelling:inherit==far-ancestor", &format!("{}=inherit under a parent that does not set it differs from plain inheritance", p.name), &b);
+                }
+            }
+        }
+        // equivalent units at the configured DPI for every length-valued property, font-size included
+        if i % 2 == 0 {
+            let d = dpi as f64;
+            // (unit, pixels per unit)
+            let units: [(&str, f64); 5] = [("in", d), ("pt", d / 72.0), ("pc", d / 6.0), ("mm", d / 25.4), ("cm", d / 2.54)];
+            let (u, ppu) = *rng.pick(&units);
+            let nmb = *rng.pick(&[1.0f64, 2.0, 0.5, 12.0, 7.5]);
+            let px = nmb * ppu;
+            let prop = *rng.pick(&["stroke-width", "stroke-dashoffset", "stroke-dasharray", "font-size", "letter-spacing", "word-spacing"]);
+            let mk = |val: &str| match prop {
+                "font-size" | "letter-spacing" | "word-spacing" => format!(
+                    r#"<svg xmlns="http://www.w3.org/2000/svg" width="80" height="60"><g font-size="10"><g {}="{}"><text x="5" y="40" stroke="black" stroke-width="0.25em">ab cd</text><rect {} stroke="black" stroke-width="0.5ex"/></g></g></svg>"#,
+                    prop, val, SHAPE
+                ),
+                _ => format!(r#"<svg xmlns="http://www.w3.org/2000/svg" width="80" height="60"><rect {} stroke="black" stroke-width="3" stroke-dasharray="5 2" {}="{}"/></svg>"#, SHAPE, prop, val),
+            };
+            let a = mk(&format!("{}{}", nmb, u));
+            let b = mk(&format!("{}px", px));
+            let cc = mk(&format!("{}", px));
+            if let (Some(ta), Some(tb), Some(tc)) = (tree_text(&a, &o), tree_text(&b, &o), tree_text(&cc, &o)) {
+                s.case("unit==pixels", &a, true);
+                if !near(&ta, &tb) || !near(&ta, &tc) {
+                    s.finding(&format!("oracle:spelling:unit==pixels:{}", prop), &format!("{}={}{} differs from {}px at dpi {}", prop, nmb, u, px, dpi), &a);
                 }
             }
         }
